@@ -9,6 +9,7 @@ From GT Require Import Model.Prune Model.Collapse Model.LocalEdit Model.NNI Mode
      Proofs.Prune Proofs.QuartetEquiv Proofs.IndexEditOps Proofs.IndexCommon Proofs.BitsetWords
      Proofs.IndexEditDeg.
 From GT Require Model.History Proofs.History Proofs.IndexHistory.
+From GT Require Import Spec.SplitMap Proofs.SplitMap Proofs.QuartetAllBase Proofs.QuartetAll.
 Import ListNotations.
 Local Close Scope Q_scope.
 Local Open Scope string_scope.
@@ -598,3 +599,122 @@ Print Assumptions edgeindex_total_real_policy.
 Theorem need75_no_overflow : no_overflow_upto need75 (2 ^ 62).
 Proof. exact Proofs.HashMap.need75_upto. Qed.
 Print Assumptions need75_no_overflow.
+
+(** * Stretch 5: clauses that were only tested by the judge's oracle *)
+
+(** ** the canonical key of a bipartition (what the judge's oracle compares) *)
+Theorem split_key_iff : forall all a b,
+    incl a all -> incl b all ->
+    (split_key (sset all) a = split_key (sset all) b <-> same_split all a b).
+Proof. exact Proofs.SplitMap.split_key_iff. Qed.
+Print Assumptions split_key_iff.
+
+Theorem split_key_same_split : forall t1 t2 ec1 ec2,
+    good t1 -> good t2 -> Permutation (leaves t1) (leaves t2) ->
+    In ec1 (edges t1) -> In ec2 (edges t2) ->
+    (sset_eqb (split_key (tipset t1) (leaves (snd ec1))) (split_key (tipset t2) (leaves (snd ec2))) = true <->
+     same_split (leaves t1) (leaves (snd ec1)) (leaves (snd ec2))).
+Proof. exact Proofs.SplitMap.split_key_same_split. Qed.
+Print Assumptions split_key_same_split.
+
+(** ** the split index IS the plain map keyed by bipartitions (Spec/SplitMap.v [sp_run], the very
+    definition the judge's oracle runs): every returned value, and the final content entry by
+    entry, for every capacity, resize policy and history; [oprel] pairs an operation on a key
+    object (a branch of any good tree on the taxa L) with the operation on its canonical key *)
+Theorem edgeindex_is_split_map : forall (L : list string) (need : nat -> N -> bool) cap ops sops rs mf,
+    (cap < W64)%N -> Forall2 (oprel L) ops sops ->
+    ei_run need (new_edge_index cap) ops = Some (rs, mf) ->
+    map to_sres rs = fst (sp_run [] sops) /\
+    exists a, Permutation (key_values ekey einfo_v mf) a /\ rel L a (snd (sp_run [] sops)).
+Proof. exact Proofs.SplitMap.edgeindex_is_split_map. Qed.
+Print Assumptions edgeindex_is_split_map.
+
+(** lookups find exactly the stored bipartition *)
+Theorem edgeindex_value_exact : forall (L : list string) (need : nat -> N -> bool) cap ops rs mf e,
+    (cap < W64)%N -> eiops_ok L ops -> ok_key L e ->
+    ei_run need (new_edge_index cap) ops = Some (rs, mf) ->
+    exists r, ei_value mf e = Some r /\
+              (forall v, r = Some v <-> exists k, In (k, v) (key_values ekey einfo_v mf) /\ ekey_eqb e k = true).
+Proof. exact Proofs.SplitMap.edgeindex_value_exact. Qed.
+Print Assumptions edgeindex_value_exact.
+
+(** non-vacuity: the branch above (c,a) of [ex_tree], key {b,d}; AddEdgeCount then Value *)
+Example split_map_example :
+  let L := leaves ex_tree in
+  let r := nth 1 (rows ex_tree) (mkRow [] 0 0 0 0 false) in
+  let k := mkEK (0, 1) r 0%Q in
+  let s := ["b"; "d"] in
+  sided L k s /\ oprel L (EIAdd k) (SAdd s (ek_len k)) /\
+  (exists mf, ei_run (fun _ _ => false) (new_edge_index 4) [EIAdd k; EIValue k] = Some ([EIOk; EIVal (Some (1%Z, 0%Q))], mf)) /\
+  fst (sp_run [] [SAdd s 0%Q; SValue s]) = [SOk; SVal (Some (1%Z, 0%Q))].
+Proof.
+  cbv zeta.
+  assert (S : sided (leaves ex_tree)
+                    (mkEK (0, 1) (nth 1 (rows ex_tree) (mkRow [] 0 0 0 0 false)) 0%Q) ["b"; "d"]).
+  { exists ex_tree, (e0, UNode "" [] [Some (e0, ex_tip "c"); None; Some (e0, ex_tip "a")]).
+    split; [exact ex_tree_good|]. split; [apply Permutation_refl|]. split.
+    - unfold branch_row. vm_compute. right. left. reflexivity.
+    - vm_compute. reflexivity. }
+  split; [exact S|]. split; [constructor; exact S|]. split; [eexists|]; vm_compute; reflexivity.
+Qed.
+Print Assumptions split_map_example.
+
+(** ** the tip index is a bijection between the tips and the ranks of the sorted names *)
+Theorem tip_index_bijection : forall t,
+    wf t = true -> 2 <= degree t -> NoDup (leaves t) ->
+    let ids := sorted_tip_names t in
+    let tid := fun name => index_of name ids in
+    tip_names t = leaves t /\ NoDup ids /\ length ids = length (tip_names t) /\
+    ids = ssort (leaves t) /\
+    (forall name, In name (tip_names t) -> tid name < length ids /\ nth_error ids (tid name) = Some name) /\
+    (forall i, i < length ids -> exists name, In name (tip_names t) /\ tid name = i) /\
+    (forall a b, In a (tip_names t) -> In b (tip_names t) -> tid a = tid b -> a = b).
+Proof. exact Proofs.SplitMap.tip_index_bijection. Qed.
+Print Assumptions tip_index_bijection.
+
+Example tip_index_example :
+  sorted_tip_names ex_tree = ["a"; "b"; "c"; "d"] /\
+  map (fun n => index_of n (sorted_tip_names ex_tree)) (tip_names ex_tree) = [1; 2; 0; 3].
+Proof. vm_compute. split; reflexivity. Qed.
+Print Assumptions tip_index_example.
+
+(** ** quartets: ALL 4-tuples of taxon ids, repeated taxa included *)
+(** HashEquals (Compare <> QUARTET_DIFF) = equal canonical form (sorted 4-tuple) = same multiset *)
+Theorem q_hash_equals_canon_iff : forall q q', q_hash_equals q q' = true <-> q_canon q = q_canon q'.
+Proof. exact Proofs.QuartetAll.q_hash_equals_canon_iff. Qed.
+Print Assumptions q_hash_equals_canon_iff.
+
+Theorem q_hash_equals_perm_iff : forall q q', q_hash_equals q q' = true <-> Permutation (qlist q) (qlist q').
+Proof. exact Proofs.QuartetAll.q_hash_equals_perm_iff. Qed.
+Print Assumptions q_hash_equals_perm_iff.
+
+Theorem q_canon_sorted : forall q, let '(s1, s2, s3, s4) := q_canon q in (s1 <= s2 /\ s2 <= s3 /\ s3 <= s4)%N.
+Proof. exact Proofs.QuartetAll.canon_sorted. Qed.
+Print Assumptions q_canon_sorted.
+
+(** an equivalence relation on all quartets (compatible with HashCode: quartet_hash_compat) *)
+Theorem q_hash_equals_equivalence_all :
+  (forall q, q_hash_equals q q = true) /\
+  (forall q q', q_hash_equals q q' = true -> q_hash_equals q' q = true) /\
+  (forall a b c, q_hash_equals a b = true -> q_hash_equals b c = true -> q_hash_equals a c = true).
+Proof. exact (conj Proofs.QuartetAll.he_refl (conj Proofs.QuartetAll.he_sym Proofs.QuartetAll.he_trans)). Qed.
+Print Assumptions q_hash_equals_equivalence_all.
+
+(** so the map keyed by quartets needs no distinctness hypothesis *)
+Theorem quartet_map_refines_all :
+  forall (V : Type) (need : nat -> N -> bool) (cap : N) (ops : list (Model.HashMap.op quartet V)) rs mf,
+    (cap < W64)%N ->
+    Model.HashMap.run quartet V q_hash_code q_hash_equals need (new_hashmap quartet V cap) ops = Some (rs, mf) ->
+    rs = fst (Model.HashMap.run_assoc quartet V q_hash_equals [] ops) /\
+    Permutation (key_values quartet V mf) (snd (Model.HashMap.run_assoc quartet V q_hash_equals [] ops)) /\
+    hm_total mf = length (snd (Model.HashMap.run_assoc quartet V q_hash_equals [] ops)).
+Proof. exact Proofs.QuartetAll.quartet_map_refines_all. Qed.
+Print Assumptions quartet_map_refines_all.
+
+Example quartet_repeated_taxa_example :
+  q_hash_equals (mkQ 1 1 2 3) (mkQ 1 2 1 3) = true /\
+  q_canon (mkQ 1 1 2 3) = (1, 1, 2, 3)%N /\ q_canon (mkQ 1 2 1 3) = (1, 1, 2, 3)%N /\
+  q_hash_code (mkQ 1 1 2 3) = q_hash_code (mkQ 1 2 1 3) /\
+  q_hash_equals (mkQ 1 1 2 3) (mkQ 1 2 2 3) = false.
+Proof. vm_compute. repeat split. Qed.
+Print Assumptions quartet_repeated_taxa_example.
